@@ -227,6 +227,11 @@ func writeEvidence(o *runOpts, P *Prog, results []*FuncResult, undecided []strin
 	cov["functions_under_contract"] = fnames
 	cov["int_mode"] = modes
 	cov["vacuity_guards_passed"] = nvac
+	nslow := 0
+	for _, r := range results {
+		nslow += r.SkippedSlow
+	}
+	cov["obligations_only_in_thorough_tier_skipped"] = nslow
 	tb := []string{
 		"govc VC generator (SSA -> SMT-LIB translation, /verif/govc) and go/ssa, go/types",
 		"SMT solvers z3 4.8.12, z3 5.1.0, cvc5 1.0",
